@@ -313,6 +313,10 @@ func (c *Conn) ReadLine() (string, bool) {
 	return l, ok
 }
 
+// PreStall (for ConnSetup; no scheduling point) makes the server not read at all from the start: the very first
+// write blocks until StallWrites(0) or Drain releases it.
+func (c *Conn) PreStall() { c.PipeCap, c.pipeUsed = 1, 1 }
+
 // Drain frees n bytes of pipe capacity (slow / bursty server).
 func (c *Conn) Drain(n int) {
 	s, mode := cur()
